@@ -176,7 +176,7 @@ class GenModel:
                                 and d.init['k'] == 'Macro' and 'tmpl' in d.init['mac']:
                             U = self._tmpl_by_mac.get(id(d.init['mac']))
                         if U is not None and U is not T and all(c in T.ctx for c in d.ctx) \
-                                and all(T.scope.lookup(h) is U.scope.lookup(h) for h in U.holes):
+                                and all(T.scope.lookup(h) is U.scope.lookup(h) for h in U.holes) and self._holes_stable(U, T):
                             out.extend(U.tokens)
                             self.inlined_templates.add(id(U))
                             changed = True
@@ -195,6 +195,26 @@ class GenModel:
                 T.holes = hole_names(new)
                 T._parsed = {}
         return changed
+
+    def _holes_stable(self, U, T):
+        """the variables interpolated in U have the same value when T is built: not reassigned, and no accumulator among them is
+        extended between the two quote! invocations"""
+        if U.fw is not T.fw:
+            return False
+        lo, hi = U.event.seq, T.event.seq
+        for h in U.holes:
+            hd = U.scope.lookup(h)
+            if hd is None:
+                return False
+            if hd.assigns:
+                return False
+            if hd.mutable or self.is_acc_def(hd, U.fw):
+                for ev in U.fw.events:
+                    if lo < ev.seq < hi and ev.kind == 'mcall':
+                        r = strip_refs(ev.recv)
+                        if r['k'] == 'Path' and r['path']['s'] == hd.name and ev.scope.lookup(hd.name) is hd:
+                            return False
+        return True
 
     def terms_of(self, fw):
         if id(fw) not in self._terms:
